@@ -23,6 +23,13 @@ DESCRIPTIONS = {
             'stored arguments are syntax (the interpreter evaluates every argument at the final call and has no way to '
             'mark an argument as already evaluated - see also the C09 finding about values that are resolved again).',
     },
+    'C15': {
+        'stale-callback': 'A timer whose callback was passed under a second name of the same function (al::cb; '
+                          '.timer("t";1;al)) follows redefinitions of the FIRST name bound to that function object (cb), not of '
+                          'the name it was given: the timer receives the function value, the wrapper recovers "its" name by '
+                          'searching the context for the object and takes the first hit. Repair not small: the name used at the '
+                          'call site is not available to a system function (arguments are evaluated before the call).',
+    },
     'C05': {
         'torch-power-rounding': 'PyTorch backend: a compiled sub-expression of Python numbers ((0+0.5), (0.5*a) with a '
                                 'Python float a) stays a double, the interpreter computes the same sub-expression as a float32 '
